@@ -9,6 +9,7 @@ import (
 	"time"
 
 	"github.com/hashicorp/raft"
+	"github.com/hashicorp/raft-wal/verifhook"
 	"github.com/segmentio/fasthash/fnv1a"
 )
 
@@ -126,16 +127,20 @@ type VerificationReport struct {
 }
 
 func (s *LogStore) runVerifier() {
+	verifhook.At("verifier.start", "")
 	if s.reportFn == nil {
 		// Nothing to do!
+		verifhook.At("verifier.exit", "")
 		return
 	}
 
 	var lastCheckPointIdx uint64
 	for {
+		verifhook.At("verifier.idle", "")
 		report, ok := <-s.verifyCh
 		if !ok {
 			// Close was called
+			verifhook.At("verifier.exit", "")
 			return
 		}
 
